@@ -81,6 +81,8 @@ func (d *driver) report(all []*result, loadTime float64) int {
 	reachedEnd := map[string]int{}
 	instancesPerHarness := map[string]int{}
 	pathsPerHarness := map[string]int{}
+	instancesPerEntry := map[*HarnessConfig]int{}
+	pathsPerEntry := map[*HarnessConfig]int{}
 	proved, concreteAsserts := 0, 0
 	raceQ, raceT := 0, 0.0
 	exhausted := 0
@@ -101,6 +103,8 @@ func (d *driver) report(all []*result, loadTime float64) int {
 		}
 		instancesPerHarness[res.Harness]++
 		pathsPerHarness[res.Harness] += res.Completed
+		instancesPerEntry[r.inst.h]++
+		pathsPerEntry[r.inst.h] += res.Completed
 		reachedEnd[res.Harness] += res.Reached["end"]
 		for f := range res.Funcs {
 			funcs[f] = true
@@ -222,10 +226,12 @@ func (d *driver) report(all []*result, loadTime float64) int {
 		fl = append(fl[:150], fmt.Sprintf("... %d more", len(fl)-150))
 	}
 	var harnessBounds []any
-	for _, h := range d.cfg.Harnesses {
-		if instancesPerHarness[h.Name] > 0 {
-			harnessBounds = append(harnessBounds, map[string]any{"harness": h.Name, "instances": instancesPerHarness[h.Name],
-				"completed_paths": pathsPerHarness[h.Name], "bounds": h.Bounds, "scale_set": h.Scale, "note": h.Note, "param_grid": h.Params})
+	for i := range d.cfg.Harnesses {
+		h := &d.cfg.Harnesses[i]
+		// only the grid entries that ran in this tier, each with its own counts
+		if instancesPerEntry[h] > 0 {
+			harnessBounds = append(harnessBounds, map[string]any{"harness": h.Name, "instances": instancesPerEntry[h],
+				"completed_paths": pathsPerEntry[h], "bounds": h.Bounds, "scale_set": h.Scale, "note": h.Note, "param_grid": h.Params})
 		}
 	}
 	var scaled, missing []string
